@@ -23,7 +23,7 @@ func isXARes(w *core.World, f *types.Func, name string) bool {
 }
 
 func checkC17(r *core.Run) {
-	r.Explain = "Decided statically: (C17.reset) every boolean state field of the XA connection (and of the embedded Conn) that some method raises to true is lowered again by a function the per-branch life cycle reaches (BeginTx, Commit, Rollback, ResetSession) — a pooled connection is reused without Close, so a flag only lowered in Close/CloseForce stays raised for every later branch and, when it guards XA END / XA ROLLBACK, leaves those branches active; (C17.order) in the XA connection's BeginTx the branch registration dominates (through its nil-error edge) the construction of the branch identifier, which dominates XAResource.Start; failure edges return an error; (C17.id) every xid argument of XAResource.Start/End/XAPrepare/Commit/Rollback is the String() of an identifier built by XaIdBuild from the global xid and the branch id (the connection's identifier field is only ever assigned such a value; phase two builds it with the same function from the request's Xid and BranchId); (C17.legal) in phase one End precedes XAPrepare through its nil-error edge, XAResource.Commit is reachable only from the phase-two BranchCommit, and the driver.Tx handed to the application ends and prepares the branch on Commit; (C17.surface) every failure of end / timeout check / prepare reaches the caller as a non-nil error, also through the implicit-transaction wrapper; (C17.status) phase-two success constants only with a nil error; (C17.nil) the nil target stored in Tx for XA mode is never dereferenced from an XA path. NOT decided: the database's own XA state machine; phase two arriving on another process."
+	r.Explain = "Decided statically: (C17.pure) phase two consults no package-level state that request paths mutate; (C17.reset) every boolean state field of the XA connection (and of the embedded Conn) that some method raises to true is lowered again by a function the per-branch life cycle reaches (BeginTx, Commit, Rollback, ResetSession) — a pooled connection is reused without Close, so a flag only lowered in Close/CloseForce stays raised for every later branch and, when it guards XA END / XA ROLLBACK, leaves those branches active; (C17.order) in the XA connection's BeginTx the branch registration dominates (through its nil-error edge) the construction of the branch identifier, which dominates XAResource.Start; failure edges return an error; (C17.id) every xid argument of XAResource.Start/End/XAPrepare/Commit/Rollback is the String() of an identifier built by XaIdBuild from the global xid and the branch id (the connection's identifier field is only ever assigned such a value; phase two builds it with the same function from the request's Xid and BranchId); (C17.legal) in phase one End precedes XAPrepare through its nil-error edge, XAResource.Commit is reachable only from the phase-two BranchCommit, and the driver.Tx handed to the application ends and prepares the branch on Commit; (C17.surface) every failure of end / timeout check / prepare reaches the caller as a non-nil error, also through the implicit-transaction wrapper; (C17.status) phase-two success constants only with a nil error; (C17.nil) the nil target stored in Tx for XA mode is never dereferenced from an XA path. NOT decided: the database's own XA state machine; phase two arriving on another process."
 	r.Trusted = []string{"go/types, go/cfg", "XAResource implementations issue the XA statement named by the method"}
 	w := r.W
 	xc := w.NamedType("pkg/datasource/sql", "XAConn")
@@ -271,6 +271,16 @@ func checkC17(r *core.Run) {
 	// ---- C17.nil
 	c17Nil(r, xc, txT)
 	c17Reset(r, xc)
+	if mgr != nil {
+		var fs []*core.FuncInfo
+		for _, n := range []string{"BranchCommit", "BranchRollback"} {
+			if m := methodInfo(w, mgr, n); m != nil {
+				fs = append(fs, m)
+			}
+		}
+		pureOfRuntimeState(r, "C17.pure", "phase two of the XA resource manager", append(fs, reachFrom(w, fs, pDSSQL)...), nil)
+		r.Floor("C17.pure", 4)
+	}
 	r.Floor("C17.reset", 2)
 	r.Floor("C17.order", 3)
 	r.Floor("C17.id", 8)
